@@ -1,5 +1,5 @@
 SPECIFICATION Spec
-CONSTANTS NH = 2 NO = 1 NN = 2 MaxLen = 2 MaxLen2 = 1 MaxSub = 1 MaxArg = 2 Kinds = {"cfg"} Fails = {0, 1} FailOut = TRUE Prune = FALSE
+CONSTANTS NH = 2 NO = 2 NN = 2 MaxLen = 2 MaxLen2 = 1 MaxSub = 1 MaxArg = 2 Kinds = {"cfg"} Solo = {2} Fails = {0, 1} FailOut = TRUE Prune = FALSE
 CONSTRAINT Bound
 VIEW View
 INVARIANTS TypeOK AliasOK Refines Balance AllGone OneSlot
